@@ -191,6 +191,35 @@ fn fault(rng: &mut Rng, bytes: &[u8]) -> (Vec<u8>, String) {
     }
 }
 
+/// every header number of `bytes` replaced in turn by each of the given values: a complete enumeration of the
+/// single-number faults of one file (the random stream above samples the same space with other faults mixed in)
+fn enumerate_number_faults(bytes: &[u8], values: &[(&str, &str)]) -> Vec<(Vec<u8>, String)> {
+    let mut out = Vec::new();
+    if !bytes.windows(7).any(|w| w == b"[DATA]\n") { return out; }
+    let p = split(bytes);
+    let lines: Vec<String> = p.head.lines().map(|s| s.to_string()).collect();
+    for (li, line) in lines.iter().enumerate() {
+        if !(line.contains(':') && line.chars().any(|c| c.is_ascii_digit())) || line.starts_with("HTS_VOICE") || line.starts_with("FULLCONTEXT") || line.starts_with("GV_OFF") || line.starts_with("OPTION") { continue; }
+        let b = line.as_bytes();
+        let mut i = line.find(':').unwrap() + 1;
+        while i < b.len() {
+            if b[i].is_ascii_digit() {
+                let s0 = i;
+                while i < b.len() && b[i].is_ascii_digit() { i += 1; }
+                for (rep, kind) in values {
+                    let mut ls = lines.clone();
+                    ls[li] = format!("{}{}{}", &line[..s0], rep, &line[i..]);
+                    let mut head = ls.join("\n");
+                    head.push('\n');
+                    let key = line.split(':').next().unwrap_or("").split('[').next().unwrap_or("").to_string();
+                    out.push((join(&Parts { head, data: p.data.clone() }), format!("num:{}:{}", key, kind)));
+                }
+            } else { i += 1; }
+        }
+    }
+    out
+}
+
 pub fn gen(seed: u64, thorough: bool) {
     let mut rng = Rng::new(seed);
     let src = Sources::new();
@@ -204,15 +233,24 @@ pub fn gen(seed: u64, thorough: bool) {
     let n = if thorough { 30000 } else { 700 };
     let dir = format!("{}/voices", work_dir());
     let _ = std::fs::create_dir_all(&dir);
-    for i in 0..n {
-        let use_bundled = i % 40 == 39;
-        let base: &Vec<u8> = if use_bundled { &bundled } else { &bases[rng.below(bases.len())] };
-        let (mut bytes, mut kind) = fault(&mut rng, base);
-        if rng.chance(0.25) {
-            let (b2, k2) = fault(&mut rng, &bytes);
-            bytes = b2;
-            kind = format!("{}+{}", kind, k2);
-        }
+    // complete enumeration first: every header number of one generated voice x eight replacement values, and of the
+    // bundled voice x the two values that make sizes vanish or explode
+    let mut fixed: Vec<(Vec<u8>, String)> = enumerate_number_faults(&bases[0], &[("0", "zero"), ("1", "one"), ("2", "two"), ("4000000000", "huge"),
+        ("99999999999999999999999999", "overflow"), ("-5", "negative"), ("abc", "text"), ("", "empty")]);
+    fixed.extend(enumerate_number_faults(&bundled, &[("0", "zero"), ("4000000000", "huge")]));
+    let nfixed = fixed.len();
+    for i in 0..(nfixed + n) {
+        let (bytes, kind) = if i < nfixed { fixed[i].clone() } else {
+            let use_bundled = i % 40 == 39;
+            let base: &Vec<u8> = if use_bundled { &bundled } else { &bases[rng.below(bases.len())] };
+            let (mut bytes, mut kind) = fault(&mut rng, base);
+            if rng.chance(0.25) {
+                let (b2, k2) = fault(&mut rng, &bytes);
+                bytes = b2;
+                kind = format!("{}+{}", kind, k2);
+            }
+            (bytes, kind)
+        };
         // keep only small files on disk for the Lean reader; large ones are checked on the implementation only
         let path = format!("{}/C18_{}_{}.htsvoice", dir, seed, i);
         let small = bytes.len() < 200_000;
